@@ -158,6 +158,11 @@ pub struct S5 {
     /// explicit choice sequence (replay / minimised); None = draw from sched_seed
     #[serde(default)]
     pub schedule: Option<Vec<u8>>,
+    /// None: both exporters write the same path. Some(name): exporter B writes this sibling path
+    /// instead; then neither export may disturb the other (each Ok export must leave exactly its
+    /// own reference bytes)
+    #[serde(default)]
+    pub path_b: Option<String>,
 }
 
 /// What happened at the export path before the export under test (the path has a history).
@@ -555,6 +560,18 @@ fn run_world_inner(w: &World) -> Obs {
                     let mut kp = Prng::new(s5.sched_seed ^ 0x5eed);
                     seams::push_keys(kp.next_u64(), kp.next_u64());
                     seams::push_keys(kp.next_u64(), kp.next_u64());
+                    // reference bytes of B (fault-free, before the scheduled section)
+                    let path_b = s5.path_b.as_ref().map(|n| seams::sim_path(n));
+                    let ref_b = if path_b.is_some() {
+                        seams::install_plan(Plan::default());
+                        let rp = seams::sim_path("reference_b.txt");
+                        match do_export(&cb, "", &rp, false) {
+                            ExportRes::Ok => seams::disk_get("/SIMDISK/reference_b.txt"),
+                            _ => None,
+                        }
+                    } else {
+                        None
+                    };
                     crate::sched::begin(2, Prng::new(s5.sched_seed), s5.schedule.clone());
                     let mk = |circ: Circuit, tid: usize, p: std::path::PathBuf| {
                         std::thread::Builder::new()
@@ -573,19 +590,47 @@ fn run_world_inner(w: &World) -> Obs {
                             .unwrap()
                     };
                     let ha = mk(c.clone(), 0, path.clone());
-                    let hb = mk(cb, 1, path.clone());
+                    let hb = mk(cb, 1, path_b.clone().unwrap_or_else(|| path.clone()));
                     crate::sched::start();
                     let ra = ha.join();
                     let rb = hb.join();
                     let (trace, points) = crate::sched::end();
                     obs.executions += 2;
                     *obs.counters.entry("s5_sched_points".into()).or_insert(0) += points;
+                    let mut oks = vec![];
                     for r in [ra, rb] {
                         match r {
-                            Ok(Ok(_)) => {}
-                            Ok(Err(m)) => obs.findings.push(finding("export_panicked", &panic_site(&m), format!("concurrent export panicked: {m}"))),
-                            Err(_) => obs.findings.push(finding("export_panicked", "thread", "exporter thread died".into())),
+                            Ok(Ok(ok)) => oks.push(ok),
+                            Ok(Err(m)) => {
+                                oks.push(false);
+                                obs.findings.push(finding("export_panicked", &panic_site(&m), format!("concurrent export panicked: {m}")))
+                            }
+                            Err(_) => {
+                                oks.push(false);
+                                obs.findings.push(finding("export_panicked", "thread", "exporter thread died".into()))
+                            }
                         }
+                    }
+                    if let Some(nb) = &s5.path_b {
+                        bump(&mut obs.counters, "s5_different_paths");
+                        // different paths: the exports must not disturb each other
+                        let img_a = seams::disk_get(pstr);
+                        let img_b = seams::disk_get(&format!("{}{nb}", seams::SIM_PREFIX));
+                        for (who, ok, img, want) in [("A", oks[0], &img_a, &ref_bytes), ("B", oks[1], &img_b, &ref_b)] {
+                            if let Some(want) = want {
+                                if !ok {
+                                    obs.findings.push(finding("export_failed_without_fault", "", format!("concurrent export {who} to its own path failed although no fault was injected")));
+                                } else if img.as_deref() != Some(want.as_slice()) {
+                                    obs.findings.push(finding(
+                                        "export_ok_but_incomplete",
+                                        "",
+                                        format!("two exports to DIFFERENT paths ran concurrently; export {who} returned Ok but its file ({} bytes) is not its fault-free export ({} bytes)", img.as_ref().map(|i| i.len()).unwrap_or(0), want.len()),
+                                    ));
+                                }
+                            }
+                        }
+                    } else {
+                        bump(&mut obs.counters, "s5_same_path");
                     }
                     obs.schedule = Some(trace);
                     obs.nontrivial = true;
@@ -1144,7 +1189,12 @@ pub fn make_world(plan: &CasePlan, seed: u64, idx: u64) -> (World, &'static str,
             let a = draw_subject(plan, &mut p, false);
             let b = draw_subject(plan, &mut p, false);
             w.program = Some(a);
-            w.s5 = Some(S5 { program_b: b, sched_seed: p.next_u64(), schedule: None });
+            let path_b = if p.chance(1, 2) {
+                Some(p.pick(&["circuit.bristol.bak", "circuit.bristol.tmp", "circuit.bristol.txt2", "circuit.other.txt", "circuit.tmp", "other.bristol.txt"]).to_string())
+            } else {
+                None
+            };
+            w.s5 = Some(S5 { program_b: b, sched_seed: p.next_u64(), schedule: None, path_b });
         }
         _ => {
             // sweep: subject only; the enumeration happens in run_sweep. Prefer a subject that can be
